@@ -262,5 +262,140 @@ theorem shape_ratio (hc : CoinM ctx) (hq : QInv Mb q G) (h : SemInv ctx q G) (hc
 
 end
 
+/-! ### the lines, in a coin context of a source domain -/
+
+section
+variable {ctx : Ctx} {Mb : Nat} {q : Query} {G : MG Name}
+
+/-- line 1 -/
+theorem shape_line1 (hq : QInv Mb q G) (h : SemInv ctx q G) (hcar : SrcCarried ctx q G) {e : Expr}
+    (he : step1 q G = .ok (some e)) : Shape ctx.M.card ctx.leaf σz e := by
+  unfold step1 at he
+  obtain ⟨e', he', h2⟩ := bind_ok he
+  have : e' = e := by simpa [pure, Except.pure] using h2
+  subst this
+  have hns : ∀ n ∈ diff' (regularNodes G) q.Y, n ∈ regularNodes G := fun n hn => (mem_diff'.1 hn).1
+  have _ := hq
+  exact shape_canonicalize ctx.S σz (good_sumSafe ctx.S false h.good (h.rng hns)) (sumND_line1 h.nd)
+    (shape_marg h hcar hns).1 he'
+
+/-- line 2 keeps the carried expression in shape -/
+theorem car_line2 (hq : QInv Mb q G) (h : SemInv ctx q G) (hcar : SrcCarried ctx q G) (hign : ctx.ign ≠ [])
+    {anc : List Name} (hanc : G.ancestorsInclusive q.Y = .ok anc)
+    (hne : (diff' (regularNodes G) anc).isEmpty = false) {q' : Query} (hq' : line2 q anc = .ok q') :
+    SrcCarried ctx q' (G.subgraph (nsort anc)) := by
+  have h' := (sound_line2 hq h hanc hne hq').1
+  have hRV : ∀ n ∈ diff' (regularNodes G) anc, n ∈ regularNodes G := fun n hn => (mem_diff'.1 hn).1
+  have hRne : plainVars (diff' (regularNodes G) anc) ≠ [] := plainVars_nonempty (by
+    intro h0; rw [h0] at hne; simp at hne)
+  rcases line2_expr_cases hq h hanc hne hq' with ⟨pop, c, hc⟩ | hs
+  · refine ⟨hc ▸ shape_leaf σz _ _ _, ?_, by rw [hc]; rfl, fun _ fs hfs => by rw [hc] at hfs; cases hfs⟩
+    intro c0 s0 hcs
+    rw [hc] at hcs
+    simp only [chain, Option.some.injEq, Prod.mk.injEq] at hcs
+    obtain ⟨rfl, rfl⟩ := hcs
+    obtain ⟨z, hz⟩ := List.exists_mem_of_ne_nil _ hign
+    rcases h'.shape with ⟨pop', c', he', jc'⟩ | ⟨hnj, _⟩
+    · rw [hc] at he'
+      injection he' with _ hcc _
+      subst hcc
+      exact ⟨z, jc'.ignIn z hz, by simp, hz⟩
+    · exact absurd hc (hnj _ _)
+  · obtain ⟨sh, cz⟩ := shape_marg h hcar hRV
+    refine ⟨hs ▸ sh, hs ▸ cz, by rw [hs]; exact isFrac_sumSafe hcar.nfrac, ?_⟩
+    intro _ fs hfs
+    rw [hs, sumSafe_eq_sum h.good.1 hRne] at hfs
+    cases hfs
+
+/-- line 4 -/
+theorem shape_line4 (h : SemInv ctx q G) {terms : List Expr} (hlen : 2 ≤ terms.length)
+    (hterms : ∀ t ∈ terms, Good ctx.S t ∧ SumND t ∧ Shape ctx.M.card ctx.leaf σz t)
+    {summand e : Expr} (hs : canonicalize (productSafe terms) = .ok summand)
+    (he : canonicalize (sumSafe summand (plainVars (diff' (regularNodes G) (q.X ++ q.Y)))) = .ok e) :
+    Shape ctx.M.card ctx.leaf σz e := by
+  have hne : terms ≠ [] := by intro h0; rw [h0] at hlen; simp at hlen
+  have hprodGood : Good ctx.S (productSafe terms) := good_productSafe ctx.S (fun t ht => (hterms t ht).1)
+  have hprodND : SumND (productSafe terms) := sumND_productSafe (fun t ht => (hterms t ht).2.1)
+  have hprodSh : Shape ctx.M.card ctx.leaf σz (productSafe terms) :=
+    shape_productSafe σz hne (fun t ht => (hterms t ht).2.2)
+  have hprodEq : productSafe terms = .prod (ssort exprLt terms) :=
+    TrsoAux.so_productSafe_eq (fun t ht => TrsoAux.so_noOne_isOne (hterms t ht).2.2.noOne)
+      (fun t ht => clean_not_zero (hterms t ht).1.1) hlen
+  have hsumSh := shape_canonicalize ctx.S σz hprodGood hprodND hprodSh hs
+  obtain ⟨gs, hgs⟩ := canon_prod_isProd ctx.S σz (hprodEq ▸ hprodGood) (hprodEq ▸ hprodND) (hprodEq ▸ hprodSh)
+    (by rw [← hprodEq]; exact hs)
+  have hns : ∀ n ∈ diff' (regularNodes G) (q.X ++ q.Y), n ∈ regularNodes G := fun n hn => (mem_diff'.1 hn).1
+  have hsumGood := good_canonicalize ctx.S hprodGood hs
+  have hsumND := sumND_canonicalize hprodND hs
+  refine shape_canonicalize ctx.S σz (good_sumSafe ctx.S false hsumGood (h.rng hns)) (sumND_sumSafe false hsumND)
+    (shape_sumSafe_false σz hsumSh (fun c s hcs => ?_)) he
+  rw [hgs] at hcs
+  cases hcs
+
+/-- the numerator / denominator accumulated by the loop of line 9 -/
+structure FracAcc (ctx : Ctx) (N D : Expr) : Prop where
+  gN : Good ctx.S N
+  gD : Good ctx.S D
+  sN : Shape ctx.M.card ctx.leaf σz N
+  sD : Shape ctx.M.card ctx.leaf σz D
+  fN : isFrac N = false
+  fD : isFrac D = false
+  le : ∀ f ∈ factors D, denL ctx.M.card ctx.leaf f σz ≤ 1
+  cz : ∀ f ∈ factors N, ChainZ ctx.ign f
+
+theorem line9_fold_shape (hc : CoinM ctx) (hq : QInv Mb q G) (h : SemInv ctx q G) (hcar : SrcCarried ctx q G)
+    (hlen : 1 < G.districts.length) {order : List Name} (hord : regularOrder G = .ok order) :
+    ∀ (L : List Name) (acc r : Expr), (acc = .one ∨ ∃ N D, acc = .frac N D ∧ FracAcc ctx N D) →
+      L.foldlM (fun (acc : Expr) node => do
+        let i ← indexOf? order node
+        let fr ← truediv (ratioParts q.expr order i).1 (ratioParts q.expr order i).2
+        mul acc fr) acc = Except.ok r →
+      (L = [] ∧ r = acc) ∨ ∃ N D, r = .frac N D ∧ FracAcc ctx N D := by
+  intro L
+  induction L with
+  | nil =>
+    intro acc r _ hr
+    simp only [List.foldlM, pure, Except.pure, Except.ok.injEq] at hr
+    exact Or.inl ⟨rfl, hr.symm⟩
+  | cons node L ih =>
+    intro acc r hacc hr
+    rw [List.foldlM_cons] at hr
+    obtain ⟨acc', hstep, hr⟩ := bind_ok hr
+    obtain ⟨i, hi, hstep⟩ := bind_ok hstep
+    obtain ⟨fr, hfr, hstep⟩ := bind_ok hstep
+    obtain ⟨l1, l2, hsplit, hlen1, _⟩ := indexOf_split hi
+    rw [← hlen1] at hfr
+    obtain ⟨a, b, rfl, ga, gb, sa, sb, hfa, hfb, za, hfaca, hfacb, hble, _⟩ :=
+      shape_ratio hc hq h hcar hlen hord hsplit hfr
+    have hacc' : ∃ N D, acc' = .frac N D ∧ FracAcc ctx N D := by
+      rcases hacc with rfl | ⟨N, D, rfl, P⟩
+      · rw [mul_one_left] at hstep
+        cases hstep
+        exact ⟨a, b, rfl, ga, gb, sa, sb, hfa, hfb, fun f hf => by rw [hfacb] at hf; simp at hf; rw [hf]; exact hble,
+          fun f hf => by rw [hfaca] at hf; simp at hf; rw [hf]; exact za⟩
+      · obtain ⟨N', D', hN', hD', hmk⟩ := mul_frac_frac P.fN P.fD hfa hfb hstep
+        obtain ⟨sN', fN', pN'⟩ := shape_mul_nonfrac σz P.sN sa P.gN.1 ga.1 P.fN hfa hN'
+        obtain ⟨sD', fD', pD'⟩ := shape_mul_nonfrac σz P.sD sb P.gD.1 gb.1 P.fD hfb hD'
+        have gN' := good_mul ctx.S P.gN ga hN'
+        have gD' := good_mul ctx.S P.gD gb hD'
+        have hacc'eq : acc' = .frac N' D' := by
+          unfold mkFrac at hmk
+          rw [clean_not_zero gD'.1] at hmk
+          simpa using hmk.symm
+        refine ⟨N', D', hacc'eq, gN', gD', sN', sD', fN', fD', ?_, ?_⟩
+        · intro f hf
+          rcases List.mem_append.1 (pD'.subset hf) with hf | hf
+          · exact P.le f hf
+          · rw [hfacb] at hf; simp at hf; rw [hf]; exact hble
+        · intro f hf
+          rcases List.mem_append.1 (pN'.subset hf) with hf | hf
+          · exact P.cz f hf
+          · rw [hfaca] at hf; simp at hf; rw [hf]; exact za
+    rcases ih acc' r (Or.inr hacc') hr with ⟨_, rfl⟩ | hfin
+    · exact Or.inr hacc'
+    · exact Or.inr hfin
+
+end
+
 end Trso
 end Y0
